@@ -77,15 +77,32 @@ Theorem C12_link_gone : forall v l,
 Proof. exact link_gone. Qed.
 Print Assumptions C12_link_gone.
 
-(* exe() of a live process: the cleaned link target, or -- link withheld -- cmdline()[0]
-   when that is an absolute path to an executable file and '' otherwise; the answer is
-   stored, and a later call returns it whatever the kernel shows then *)
+(* exe() of a live process: the cleaned link target, or -- link withheld (ENOENT/ESRCH) --
+   cmdline()[0] when that is an absolute path to an executable regular file ([exec_file]:
+   absolute AND a regular file AND executable; a searchable directory, a file without x
+   bit, a dangling or a relative path are refused) and '' otherwise; the answer is stored,
+   and a later call returns it whatever the kernel shows then *)
 Theorem C12_exe_fallback_and_cache : forall r v',
-  wf_proc r = true ->
-  fe_exe now None (view_proc r) = (Val (spec_exe r), Some (spec_exe r))
-  /\ fe_exe now (Some (spec_exe r)) v' = (Val (spec_exe r), Some (spec_exe r)).
+  wf_proc r = true -> spec_cached r = true ->
+  exists e, spec_exe r = Val e
+            /\ fe_exe now None (view_proc r) = (Val e, Some e)
+            /\ fe_exe now (Some e) v' = (Val e, Some e).
 Proof. exact exe_fallback_and_cache_now. Qed.
 Print Assumptions C12_exe_fallback_and_cache.
+
+(* reading the link denied (EACCES): the same fallback value when it applies, AccessDenied
+   otherwise; nothing is stored *)
+Theorem C12_exe_denied : forall r,
+  wf_proc r = true -> spec_cached r = false ->
+  fe_exe now None (view_proc r) = (spec_exe r, None).
+Proof. exact exe_denied_now. Qed.
+Print Assumptions C12_exe_denied.
+
+(* the oracle of the model keeps isabs / isfile / access(X_OK) apart; together they are [exec_file] *)
+Theorem C12_exe_three_tests : forall r a0,
+  prefixb [47] a0 && isfile (view_proc r) a0 && access_x (view_proc r) a0 = exec_file (p_paths r) a0.
+Proof. exact guess_oracle. Qed.
+Print Assumptions C12_exe_three_tests.
 
 (* for any view at all: an answer of a first call is the cached one unless readlink was denied *)
 Theorem C12_exe_answer_is_cached : forall c v e st,
